@@ -372,6 +372,8 @@ class Interp:
 
     def binop(self, fn, a, b, sig, where=""):
         fn = INPLACE.get(fn, fn)
+        if isinstance(a, str) or isinstance(b, str):
+            return "<str>"      # message formatting on an error path
         ta, tb = (_unlit(x) for x in sig.args)
         rt = _unlit(sig.return_type)
         if not isinstance(a, Sym) and not isinstance(b, Sym):
